@@ -66,6 +66,13 @@ theorem right_key_opens (rk : Nat) (s : Secret) :
     decrypt rk (.enc rk (s.fields.map .clear)) = some (s.fields.map .clear) := by
   simp [decrypt]
 
+/-- … and a rebuild with the right key opens every record of a tape the writer made -/
+theorem right_key_rebuild_opens (rk : Nat) (recs : List (List Term)) (strict : Bool) :
+    rebuildOpens strict rk (recs.map (fun inner => Term.enc rk inner)) = true := by
+  induction recs with
+  | nil => rfl
+  | cons r rest ih => simp [rebuildOpens, decrypt, ih]
+
 /-- non-vacuity: there are write sites, and a concrete record with secrets at any of them -/
 example : writeSites ≠ [] ∧ ∀ site ∈ writeSites, visibleAll (writeRecord site contentGoesThroughEncrypt true 1 512
     { fields := [(n!"/secret/name"), (n!"UPDATE")], content := (n!"content") }) = [] :=
